@@ -268,6 +268,12 @@ def check(ctx):
             if isinstance(n, ast.Attribute) and isinstance(n.value, ast.Name) and n.value.id in ps and n.attr.startswith("_") and not n.attr.startswith("__"):
                 ok = (f.name, n.attr) in PRIVATE_OK
                 ctx.ob("INJ.private-attr", n, f"{f.name} reads {unparse(n)}", ok, "" if ok else "the token is built from a private attribute of the normalised object: public state that distinguishes values (names, flags) may not be in it, and equal objects with different history can tokenize differently", nontrivial=not ok)
+    # ---------------- pandas Index: tokenised through its extension array (keeps tz, freq, categories), not .values
+    ni = [f_ for f_, t_ in regs if f_.name == "normalize_index" and t_ == "pd.Index"]
+    vals = find("values = M_v", ni[0]) if ni else []
+    first = min(vals, key=lambda nb: nb[0].lineno) if vals else None
+    ok = len(ni) == 1 and first is not None and unparse(first[1]["M_v"]) == "ind.array" and dominates(ni[0], first[0], returns(ni[0])[0])
+    ctx.ob("INJ.index-array", ni[0] if ni else mod.tree, "normalize_index reads ind.array", ok, "" if ok else "ind.values drops what the extension array carries (time zone, frequency): a naive and a tz-aware index over the same instants share a token")
     # ---------------- INJ.dataclass: every field of a dataclass instance is part of its token
     dcf = mod.func("_normalize_dataclass")
     comps = [c for c in ast.walk(dcf) if isinstance(c, ast.ListComp) and "dataclasses.fields(obj)" in unparse(c.generators[0].iter)]
